@@ -176,7 +176,11 @@ class AStarSearch(Plans):
                 continue
             else:
                 # We use `is` instead of `==` to ensure the nodes are the same object instances, not just equal.
-                assert best_in_queue_by_state[s] is node, 'Newly visited state should be stored as best node.'
+                if best_in_queue_by_state[s] is not node:
+                    # A stale node: the state was re-reached at lower cost after this node was queued. A better node
+                    # normally has a strictly smaller priority and is popped first, but when the heuristic is infinite
+                    # (a state that cannot reach the goal) both priorities are infinite and the older node can come out first.
+                    continue
                 # Remove the reference to this node, now that it's been removed from the queue.
                 del best_in_queue_by_state[s]
 
